@@ -460,7 +460,7 @@ def oracle_member(c, v):
             try:
                 rounded = bool(lo <= float(x) <= hi)
             except OverflowError:
-                return exact
+                return None if exact else False       # no binary64 for this int: only "outside the bounds" is judged
             return exact if exact == rounded else None    # binary64 rounding of a huge int decides: outside the statement
         return bool(lo <= x <= hi)
     if k == "MAX_LENGTH":                             # strings and lists only
@@ -525,21 +525,9 @@ def oracle_chain(chain, v, member_cache=None):
 
 
 # ------------------------------------------------------------------------------------------------
-# known-finding class predicates (input based, narrow).  Signature: (chain_kinds_and_specs, python value) -> bool
+# known-finding class predicates (input based, narrow).  Signature: (chain specs, python value) -> bool
+# (F19, C08N1/F36 and F37 are fixed in /repo: their predicates are gone, their witnesses live in corpus/C08)
 # ------------------------------------------------------------------------------------------------
-
-def range_int_overflow(chain, v):
-    """F36: a RANGE member and an int (not bool) too large for float()."""
-    if not any(c[0] == "RANGE" for c in chain):
-        return False
-    if isinstance(v, bool) or not isinstance(v, int):
-        return False
-    try:
-        float(v)
-        return False
-    except OverflowError:
-        return True
-
 
 def spec_exempt(chain, v):
     """Inputs outside the hypotheses of the Lean RANGE theorem (`RangeGuard`): a NaN bound (not writable in a chain text),
@@ -554,4 +542,4 @@ def spec_exempt(chain, v):
     return False
 
 
-CLASS_PREDICATES = {"range_int_overflow": range_int_overflow}
+CLASS_PREDICATES = {}          # no open known finding for C08 at present
